@@ -113,9 +113,24 @@ class CacheMonitor:
         except BaseException as e:
             r.note(f'description generation failed: {type(e).__name__}')
             return
+        # a custom accessible may be called like a predefined one with an underscore in front (legal SECoP; a foreign node, or
+        # export='_value'): it is another parameter than the predefined one
+        if rng.random() < 0.3:
+            for mn, md in desc['modules'].items():
+                for pre in ('value', 'status', 'target'):
+                    if pre in md['accessibles'] and '_' + pre not in md['accessibles'] and rng.random() < 0.6:
+                        md['accessibles']['_' + pre] = {'description': 'look-alike', 'datainfo': {'type': 'string', 'maxchars': 40}, 'readonly': True}
+                        r.count('look_alike_accessibles')
         client = self.SecopClient('fake://x', log=None)
         client.activate = False
         client._init_descriptive_data(desc)
+        for mn, md in desc['modules'].items():
+            names = [client.internalize_name(an) for an in md['accessibles']]
+            if len(set(names)) != len(names):
+                dup = sorted({n for n in names if names.count(n) > 1})
+                r.violation('C12/identifiers-collide', f'module {mn}: the accessibles {sorted(md["accessibles"])} are known to the client as {names} ({dup} twice)',
+                            {'sub': 'sequence', 'accessibles': sorted(md['accessibles'])})
+                return
         params = []   # (module, wire name, internal name, datainfo)
         for mn, md in desc['modules'].items():
             for an, ad in md['accessibles'].items():
